@@ -316,4 +316,49 @@ theorem elabArgs_sound_aux : ∀ (as : SArgs) (as' : IArgs) (ts : List ETy),
         exact .cons ih ihr
 end
 
+mutual
+/-- every variable and function id of the expression is allocated in the environment -/
+def IdsInRange (Γ : Env) : IExpr → Prop
+  | .lit _ => True
+  | .var i => i < Γ.vars.length
+  | .tern c a b => IdsInRange Γ c ∧ IdsInRange Γ a ∧ IdsInRange Γ b
+  | .seq a b => IdsInRange Γ a ∧ IdsInRange Γ b
+  | .call f args => f < Γ.funcs.length ∧ ArgsInRange Γ args
+  | .cast _ e => IdsInRange Γ e
+  | .op _ args => ArgsInRange Γ args
+def ArgsInRange (Γ : Env) : IArgs → Prop
+  | .nil => True
+  | .cons e r => IdsInRange Γ e ∧ ArgsInRange Γ r
+end
+
+mutual
+theorem ids_of_hasType : ∀ (e : IExpr) (τ : ETy), HasType Γ e τ → IdsInRange Γ e
+  | .lit _, _, _ => by simp [IdsInRange]
+  | .var i, _, h => by
+    cases h with
+    | var hv =>
+      simp only [IdsInRange]
+      exact (List.getElem?_eq_some_iff.mp hv).1
+  | .tern c a b, _, h => by
+    cases h with
+    | tern hc ha hb _ => exact ⟨ids_of_hasType c _ hc, ids_of_hasType a _ ha, ids_of_hasType b _ hb⟩
+  | .seq a b, _, h => by
+    cases h with
+    | seq ha hb => exact ⟨ids_of_hasType a _ ha, ids_of_hasType b _ hb⟩
+  | .call f args, _, h => by
+    cases h with
+    | call hf ha => exact ⟨(List.getElem?_eq_some_iff.mp hf).1, ids_of_hasArgs args _ ha⟩
+  | .cast _ e, _, h => by
+    cases h with
+    | cast he => exact ids_of_hasType e _ he
+  | .op _ args, _, h => by
+    cases h with
+    | op ha _ => exact ids_of_hasArgs args _ ha
+theorem ids_of_hasArgs : ∀ (as : IArgs) (ts : List ETy), HasArgs Γ as ts → ArgsInRange Γ as
+  | .nil, _, _ => by simp [ArgsInRange]
+  | .cons e r, _, h => by
+    cases h with
+    | cons he hr => exact ⟨ids_of_hasType e _ he, ids_of_hasArgs r _ hr⟩
+end
+
 end RsslVerif.Lemmas.Elab
